@@ -8,12 +8,12 @@
 (***************************************************************************)
 EXTENDS Families, Json
 
-VARIABLE i
-Init == i \in DOMAIN QuickUniverse
-Next == UNCHANGED i
-Spec == Init /\ [][Next]_i
+VARIABLE c   \* the document (carried in the state: nothing is recomputed)
+Init == \E k \in DOMAIN QuickUniverse : c = QuickUniverse[k]
+Next == UNCHANGED c
+Spec == Init /\ [][Next]_c
 
-D == QuickUniverse[i]
+D == c
 T == D.defs["T"]
 Cands == Candidates(T, D.defs, 2)
 
